@@ -71,10 +71,12 @@ inductive Op where
   | setS (s : Float)
   | setH (a b : Float)
   | until (cap : Nat)
+  | src
 
 def parseOp (t : String) : Option Op :=
   match t.toList with
   | ['o'] => some .out
+  | ['z'] => some .src
   | 'm' :: r => (parseF64 (String.ofList r)).map .mul
   | 'p' :: r => (parseF64 (String.ofList r)).map .setP
   | 's' :: r => (parseF64 (String.ofList r)).map .setS
@@ -105,6 +107,11 @@ def runOps (ip : Interp Float S I) (eq : List S) (showS : S → String) :
     let n := countUntil floatArith ip eq cap c
     let c' := iter floatArith ip eq n c
     s!"c{n}/{c'.src.pos}" :: runOps ip eq showS ops c'
+  | .src :: _, c =>
+    -- `into_source()`: the source handed back continues right after the frames pulled so far
+    let a := c.src.next eq
+    let b := a.2.next eq
+    [s!"z{",".intercalate (a.1.map showS)};{",".intercalate (b.1.map showS)}/{b.2.pos}"]
 
 def construct (ctor : String) (src : Src S) (ist : I) : Option (Option (St Float S I)) :=
   match ctor.toList with
